@@ -1068,7 +1068,7 @@ func c16hand(r *rand.Rand, payload []byte, firstType, firstSeg int) (out []byte,
 	}
 	pos, nblocks, done := 0, 0, false
 	for !done {
-		if emptyEvery > 0 && nblocks < 40 && r.Intn(emptyEvery) == 0 {
+		if emptyEvery > 0 && nblocks < 40 && !(firstType >= 0 && nblocks == 0) && r.Intn(emptyEvery) == 0 {
 			emit(r.Intn(3), false, pos, pos)
 			nblocks++
 		}
@@ -1756,7 +1756,7 @@ func (st *c16state) robCase(phase string, idx int64) {
 // C16 runs both phases.
 func C16(rc *vk.Rec) {
 	st := &c16state{rc: rc, sigSeen: map[string]int{}, fw: map[int]*flate.Writer{}, zw: map[int]*zlib.Writer{}}
-	n := rc.N(640, 50000)
+	n := rc.N(640, 30000)
 	for idx := int64(0); idx < int64(n); idx++ {
 		if rc.SkipCase("c16", idx) {
 			continue
@@ -1764,7 +1764,7 @@ func C16(rc *vk.Rec) {
 		rc.Mark("c16", idx)
 		st.validCase("c16", idx)
 	}
-	m := rc.N(20000, 2000000)
+	m := rc.N(20000, 1200000)
 	for idx := int64(0); idx < int64(m); idx++ {
 		if rc.SkipCase("c16rob", idx) {
 			continue
